@@ -228,3 +228,65 @@ Proof.
   rewrite E0 in A1. assert (Y : s1 = enc_va false (csvals c) ++ enc32 false 0 ++ tail) by congruence. subst s1. rewrite (EV (enc32 false 0 ++ tail)) in A2. assert (Y : s2 = enc32 false 0 ++ tail) by congruence. subst s2. rewrite (E32 tail) in A3. assert (Y : s3 = tail) by congruence. subst s3. exact A4.
 Qed.
 Print Assumptions C14_source_cs_read_any_schedule.
+
+(* ... and with properties: sbdf_cs_read on the encoding of ANY well-formed column slice (any number of properties) whose value
+   arrays are plain or run-length, followed by anything, under EVERY allocation schedule: a negative status with the out-cell
+   untouched and everything the call allocated released by its own sbdf_cs_destroy - or OK with the stream exactly behind the
+   slice and a result that one sbdf_cs_destroy releases completely. *)
+From Sbdf Require Import ImpFactsCsReadProps BaseFacts.
+Lemma props_of_encoding : forall (props : list (list Z * va)) tail, (forall p, In p props -> wf_prop p /\ venc (snd p) <> SBDF_BITARRAYENCODINGTYPEID) ->
+  props_end (List.length props) (List.concat (map (enc_prop false) props) ++ tail) = Some tail /\
+  props_nobit (List.length props) (List.concat (map (enc_prop false) props) ++ tail).
+Proof.
+  induction props as [|p props IH]; intros tail Hw; cbn [List.length map List.concat props_end props_nobit app]; [split; [reflexivity|exact I]|].
+  destruct (Hw p (or_introl eq_refl)) as ((Hl & Wv & Bv) & Hne).
+  destruct (rspec_string false (fst p) Hl) as [ES _]. destruct (rspec_va false (snd p) Wv Bv) as [EV _].
+  unfold enc_prop at 1 3. rewrite <- !app_assoc.
+  rewrite (ES (enc_va false (snd p) ++ List.concat (map (enc_prop false) props) ++ tail)).
+  rewrite (EV (List.concat (map (enc_prop false) props) ++ tail)).
+  destruct (IH tail (fun q Hq => Hw q (or_intror Hq))) as (I1 & I2).
+  split; [exact I1|]. split; [|exact I2].
+  intros t s2 X. unfold enc_va in X. cbn [app] in X. injection X as X _. destruct Wv; cbn [venc] in *; try discriminate X. apply Hne. reflexivity.
+Qed.
+
+Theorem C14_source_cs_read_with_properties_any_schedule : forall rf rp fo po k m h c tail, wf_cs c -> venc (csvals c) <> SBDF_BITARRAYENCODINGTYPEID ->
+  (forall p, In p (csprops c) -> venc (snd p) <> SBDF_BITARRAYENCODINGTYPEID) ->
+  Forall byte (enc_cs false c ++ tail) ->
+  exists f0, forall f, (f0 <= f)%nat -> exists st fin,
+    callC prog_env f prog_sbdf_cs_read [VPtr rf fo; VPtr rp po] m k (enc_cs false c ++ tail) h = OReturn (VInt st) fin /\
+    ((st = SBDF_OK /\ Imp.lookup strm_var (vars fin) = Some (VBytes tail) /\ Imp.lookup "*out" (vars fin) = Some (VCell (List.length h) 0) /\
+        exists hnew, Imp.lookup cells_var (vars fin) = Some (VHeap (h ++ hnew)) /\
+          forall k' s', exists f1, forall g, (f1 <= g)%nat -> exists fin2,
+            callC prog_env g prog_sbdf_cs_destroy [VCell (List.length h) 0] (inb fin) k' s' (h ++ hnew) = OReturn (VInt 0) fin2 /\
+            Imp.lookup cells_var (vars fin2) = Some (VHeap (h ++ nones (List.length hnew)))) \/
+     (st < 0 /\ Imp.lookup "*out" (vars fin) = Some VUndef /\ exists j, Imp.lookup cells_var (vars fin) = Some (VHeap (h ++ nones j)))).
+Proof.
+  intros rf rp fo po k m h c tail (Wv & Bv & Hn & Wp) Hne Hnp Hb.
+  pose proof (zlen_nonneg (csprops c)) as N0.
+  assert (ESX : enc_cs false c ++ tail = [223; 91; SBDF_COLUMNSLICE_SECTIONID] ++ (enc_va false (csvals c) ++ enc32 false (zlen (csprops c)) ++ List.concat (map (enc_prop false) (csprops c)) ++ tail)).
+  { unfold enc_cs. rewrite <- !app_assoc. reflexivity. }
+  rewrite ESX in *.
+  set (PT := List.concat (map (enc_prop false) (csprops c)) ++ tail) in *.
+  destruct (rspec_sec_expect SBDF_COLUMNSLICE_SECTIONID) as [E0 _].
+  destruct (rspec_va false (csvals c) Wv Bv) as [EV _].
+  destruct (rspec_int32 false (zlen (csprops c)) ltac:(unfold i32_range; lia)) as [E32 _].
+  destruct (props_of_encoding (csprops c) tail (fun p Hp => conj (Wp p Hp) (Hnp p Hp))) as (PE & PN). fold PT in PE, PN.
+  assert (Hlen : Z.to_nat (zlen (csprops c)) = List.length (csprops c)) by (unfold zlen; lia).
+  assert (NB : forall s1, sec_expect SBDF_COLUMNSLICE_SECTIONID ([223; 91; SBDF_COLUMNSLICE_SECTIONID] ++ enc_va false (csvals c) ++ enc32 false (zlen (csprops c)) ++ PT) = Ok (tt, s1) -> forall t s2, s1 <> 3 :: t :: s2).
+  { intros s1 E. rewrite E0 in E. assert (Y : s1 = enc_va false (csvals c) ++ enc32 false (zlen (csprops c)) ++ PT) by congruence. subst s1. intros t s2 X. unfold enc_va in X. cbn [app] in X. injection X as X _. destruct Wv; cbn [venc] in *; try discriminate X. apply Hne. reflexivity. }
+  assert (NBP : forall s1 va s2 v s3, sec_expect SBDF_COLUMNSLICE_SECTIONID ([223; 91; SBDF_COLUMNSLICE_SECTIONID] ++ enc_va false (csvals c) ++ enc32 false (zlen (csprops c)) ++ PT) = Ok (tt, s1) ->
+                 Va.va_read false None s1 = Ok (va, s2) -> read_int32 false s2 = Ok (v, s3) -> props_nobit (Z.to_nat v) s3).
+  { intros s1 va s2 v s3 E A R. rewrite E0 in E. assert (Y : s1 = enc_va false (csvals c) ++ enc32 false (zlen (csprops c)) ++ PT) by congruence. subst s1.
+    rewrite (EV (enc32 false (zlen (csprops c)) ++ PT)) in A. assert (Y : s2 = enc32 false (zlen (csprops c)) ++ PT) by congruence. subst s2.
+    rewrite (E32 PT) in R. assert (Y : v = zlen (csprops c) /\ s3 = PT) by (split; congruence). destruct Y as (-> & ->). rewrite Hlen. exact PN. }
+  destruct (cs_read_full_source rf rp fo po k _ m h Hb NB NBP) as (f0 & F). exists f0. intros f Hf.
+  destruct (F f Hf) as (st & fin & C & _ & Out). exists st, fin. split; [exact C|].
+  destruct Out as [(E & Ho & (s1 & va & s2 & v & s3 & s' & A1 & A2 & A3 & A4 & A5 & A6) & hnew & Hc & _ & D)|(Hng & Ho & Hj)]; [|right; split; [exact Hng|split; [exact Ho|exact Hj]]].
+  left. split; [exact E|]. split; [|split; [exact Ho|]].
+  - rewrite E0 in A1. assert (Y : s1 = enc_va false (csvals c) ++ enc32 false (zlen (csprops c)) ++ PT) by congruence. subst s1.
+    rewrite (EV (enc32 false (zlen (csprops c)) ++ PT)) in A2. assert (Y : s2 = enc32 false (zlen (csprops c)) ++ PT) by congruence. subst s2.
+    rewrite (E32 PT) in A3. assert (Y : v = zlen (csprops c) /\ s3 = PT) by (split; congruence). destruct Y as (-> & ->).
+    rewrite Hlen, PE in A5. assert (s' = tail) by congruence. subst s'. exact A6.
+  - exists hnew. split; [exact Hc|]. intros k' s2'. destruct (D k' s2') as (f1 & F1). exists f1. intros g Hg. destruct (F1 g Hg) as (fin2 & C2 & _ & H2). exists fin2. split; [exact C2|exact H2].
+Qed.
+Print Assumptions C14_source_cs_read_with_properties_any_schedule.
